@@ -31,6 +31,9 @@ pub struct Case {
     /// and the retried merge creates one more.
     #[serde(default)]
     pub create_fault: Option<u16>,
+    /// order of the builder's setter calls
+    #[serde(default)]
+    pub order: u8,
 }
 
 impl Prop for C08 {
@@ -71,6 +74,7 @@ impl Prop for C08 {
                 sizes,
                 key_mod,
                 create_fault: None,
+                order: (amount % 6) as u8,
             });
         let faulty = (hooked.clone(), 0u16..24).prop_map(|(mut c, k)| {
             c.create_fault = Some(k);
@@ -93,6 +97,7 @@ impl Prop for C08 {
                 sizes,
                 key_mod,
                 create_fault: None,
+                order: (amount % 6) as u8,
             });
         // NOT registered: the fault-and-continue scenario is outside C08's quantifier (see DESIGN 12, false alarms);
         // kept for experiments with VERIF_C08_FAULTS=1
@@ -139,6 +144,7 @@ impl Prop for C08 {
             interval: None,
             levels: None,
             creator: CreatorKind::Instrumented,
+            order: case.order,
         };
         let t = conf.effective_budget();
         let bound = if case.allow_realloc { 2 * t } else { t };
